@@ -483,6 +483,14 @@ package httpserver
 //@   requires u != nil
 //@   ensures [remainder_stays_a_path_of_this_site] result != nil && (result == u || (result.Host == "" && result.Scheme == "" && result.User == nil && result.Opaque == ""))
 
+//@ unit directive_order props=C03,C09,C12 filter=`httpserver\.none_matches_this$`
+//@ // The order-defining table of the http server type (setup order, and with it the middleware chain, follows this list
+//@ // whatever the order of lines in a Casketfile). What the properties need of it, decided on the literal itself:
+//@ // C03: the credential check sees the path that will be served (after tryfiles, rewrite, ext) and guards everything that
+//@ // answers (before redir, status, internal, templates, proxy, fastcgi, websocket, markdown, browse);
+//@ // C12/C20: log wraps gzip and errors, which wrap the handlers that produce content.
+//@ table directives order root, tls, log, tryfiles, rewrite, ext, gzip, header, errors, basicauth, redir, status, mime, internal, templates, proxy, fastcgi, websocket, markdown, browse
+
 //@ unit split_host_path frames=on props=C01 filter=`vhostTrie\)\.splitHostPath$`
 //@ // "host matching ignores letter case and port": the key both Insert and Match look up is the lower-cased text before the
 //@ // first slash, with the port removed exactly when net.SplitHostPort accepts it as host:port (hostOf/hasPort below ARE
